@@ -292,6 +292,40 @@ func derefsIn(p *Program, f *ssa.Function) []derefFinding {
 					fmt.Sprintf("result of map look-up %s (element %s) is dereferenced (%s) without a nil/ok test", exprKeyShort(x), types.TypeString(mt.Elem(), shortQual), deref)})
 				break
 			}
+		case *ssa.Slice:
+			// s[:k] / s[k:] of a string taken from the model: needs len(s) >= k
+			if b, ok := x.X.Type().Underlying().(*types.Basic); !ok || b.Info()&types.IsString == 0 {
+				return
+			}
+			var k int64
+			if x.High != nil {
+				if kk, ok := constInt(x.High); ok {
+					k = kk
+				}
+			}
+			if x.Low != nil {
+				if kk, ok := constInt(x.Low); ok && kk > k {
+					k = kk
+				}
+			}
+			if k < 1 {
+				return
+			}
+			src, risky := riskyStringSource(x.X)
+			if !risky {
+				return
+			}
+			if lenTestedBefore(f, x.X, k-1, x) || (k == 1 && nonEmptyTestedBefore(f, x.X, x)) {
+				return
+			}
+			out = append(out, derefFinding{f, x, "short-string",
+				fmt.Sprintf("the first %d byte(s) of %s are sliced without a dominating length test: an empty value panics", k, src)})
+		case *ssa.Extract:
+			// a pointer result used before the error that came with it is tested
+			if d := usedBeforeErrCheck(x); d != nil {
+				out = append(out, derefFinding{f, d, "use-before-error-check",
+					fmt.Sprintf("the result of %s is dereferenced before the error returned with it is tested: when the call fails the result is nil", callName(x.Tuple))})
+			}
 		case *ssa.IndexAddr:
 			c, ok := constInt(x.Index)
 			if !ok {
@@ -639,4 +673,209 @@ func rangeKeyOf(v ssa.Value, mkey string) bool {
 	}
 	rg, ok := nx.Iter.(*ssa.Range)
 	return ok && exprKey(rg.X, 0) == mkey
+}
+
+// riskyStringSource: strings whose content is decided by the model: results of
+// pkg/sysl getters and string fields of pkg/sysl messages.
+func riskyStringSource(v ssa.Value) (string, bool) {
+	v = unspill(v)
+	switch x := v.(type) {
+	case *ssa.Call:
+		if sc := x.Call.StaticCallee(); sc != nil {
+			if o, ok := sc.Object().(*types.Func); ok && o.Pkg() != nil && o.Pkg().Path() == repoMod+"/pkg/sysl" && strings.HasPrefix(o.Name(), "Get") {
+				return objLocalName(o), true
+			}
+		}
+	case *ssa.UnOp:
+		if own, fld, _, ok := loadedField(x); ok && own != nil && own.Obj().Pkg() != nil && own.Obj().Pkg().Path() == repoMod+"/pkg/sysl" {
+			return own.Obj().Name() + "." + fld, true
+		}
+	}
+	return "", false
+}
+
+// nonEmptyTestedBefore: use is dominated by the outcome s != "" of a comparison
+// of the same string with the empty constant.
+func nonEmptyTestedBefore(f *ssa.Function, s ssa.Value, use ssa.Instruction) bool {
+	key := exprKey(s, 0)
+	found := false
+	eachInstr(f, func(_ *ssa.BasicBlock, i ssa.Instruction) {
+		bin, ok := i.(*ssa.BinOp)
+		if !ok || (bin.Op != token.EQL && bin.Op != token.NEQ) {
+			return
+		}
+		var other ssa.Value
+		if e, ok := constString(bin.X); ok && e == "" {
+			other = bin.Y
+		} else if e, ok := constString(bin.Y); ok && e == "" {
+			other = bin.X
+		} else {
+			return
+		}
+		if other != s && exprKey(other, 0) != key {
+			return
+		}
+		for _, br := range branchesOn(bin) {
+			ne, eq := br.TrueSucc, br.FalseSucc
+			if bin.Op == token.EQL {
+				ne, eq = br.FalseSucc, br.TrueSucc
+			}
+			if (ne == use.Block() || ne.Dominates(use.Block())) && len(ne.Preds) == 1 {
+				found = true
+			}
+			if br.If.Block().Dominates(use.Block()) && !blockReaches(eq, use.Block(), nil) {
+				found = true
+			}
+		}
+	})
+	return found
+}
+
+func callName(v ssa.Value) string {
+	if cl, ok := v.(*ssa.Call); ok {
+		if o := calleeObj(cl); o != nil {
+			return shortObj(o)
+		}
+		if cl.Call.IsInvoke() {
+			return cl.Call.Method.Name()
+		}
+	}
+	return "the call"
+}
+
+// usedBeforeErrCheck: ex is a pointer-typed result of a call that also returns
+// an error which the function does test against nil; it returns a dereference
+// of ex that is not protected by that test (neither dominated by the nil
+// outcome, nor placed after an error branch that leaves).
+func usedBeforeErrCheck(ex *ssa.Extract) ssa.Instruction {
+	call, ok := ex.Tuple.(*ssa.Call)
+	if !ok {
+		return nil
+	}
+	if _, isPtr := ex.Type().Underlying().(*types.Pointer); !isPtr {
+		if _, isIface := ex.Type().Underlying().(*types.Interface); !isIface {
+			return nil
+		}
+	}
+	sig := call.Call.Signature()
+	ei := errorResultIndex(sig)
+	if ei < 0 || ei == ex.Index || call.Referrers() == nil {
+		return nil
+	}
+	var errv *ssa.Extract
+	for _, r := range *call.Referrers() {
+		if e2, ok := r.(*ssa.Extract); ok && e2.Index == ei {
+			errv = e2
+		}
+	}
+	if errv == nil || errv.Referrers() == nil {
+		return nil
+	}
+	// nil comparisons of the error (directly or through the cell it is stored in)
+	type side struct {
+		iff       *ssa.If
+		nilS, erS *ssa.BasicBlock
+	}
+	var tests []side
+	var scan func(v ssa.Value, d int)
+	seen := map[ssa.Value]bool{}
+	scan = func(v ssa.Value, d int) {
+		if d > 3 || seen[v] || v.Referrers() == nil {
+			return
+		}
+		seen[v] = true
+		for _, r := range *v.Referrers() {
+			switch y := r.(type) {
+			case *ssa.BinOp:
+				if (y.Op == token.EQL || y.Op == token.NEQ) && (isNilConst(y.X) || isNilConst(y.Y)) {
+					for _, br := range branchesOn(y) {
+						n, e := br.TrueSucc, br.FalseSucc
+						if y.Op == token.NEQ {
+							n, e = br.FalseSucc, br.TrueSucc
+						}
+						tests = append(tests, side{br.If, n, e})
+					}
+				}
+			case *ssa.Store:
+				if y.Val == v {
+					if al, ok := y.Addr.(*ssa.Alloc); ok && al.Referrers() != nil {
+						for _, r2 := range *al.Referrers() {
+							if ld, ok := r2.(*ssa.UnOp); ok && ld.Op == token.MUL {
+								scan(ld, d+1)
+							}
+						}
+					}
+				}
+			case *ssa.Phi:
+				scan(y, d+1)
+			}
+		}
+	}
+	scan(errv, 0)
+	if len(tests) == 0 {
+		return nil // the error is not tested here at all: not this rule's business
+	}
+	if ex.Referrers() == nil {
+		return nil
+	}
+	// the result itself and its copies read back from a local cell (a variable
+	// captured by a closure is spilled to one)
+	type use struct {
+		v ssa.Value
+		r ssa.Instruction
+	}
+	var uses []use
+	for _, r := range *ex.Referrers() {
+		uses = append(uses, use{ex, r})
+		if st, ok := r.(*ssa.Store); ok && st.Val == ssa.Value(ex) {
+			if al, ok := st.Addr.(*ssa.Alloc); ok && al.Referrers() != nil {
+				for _, r2 := range *al.Referrers() {
+					if ld, ok := r2.(*ssa.UnOp); ok && ld.Op == token.MUL && ld.Parent() == ex.Parent() && ld.Referrers() != nil {
+						for _, r3 := range *ld.Referrers() {
+							uses = append(uses, use{ld, r3})
+						}
+					}
+				}
+			}
+		}
+	}
+	for _, us := range uses {
+		r, val := us.r, us.v
+		deref := false
+		switch u := r.(type) {
+		case *ssa.FieldAddr:
+			deref = u.X == val
+		case *ssa.UnOp:
+			deref = u.Op == token.MUL && u.X == val
+		case ssa.CallInstruction:
+			cc := u.Common()
+			if _, isDefer := r.(*ssa.Defer); isDefer {
+				continue
+			}
+			if cc.IsInvoke() && cc.Value == val {
+				deref = true
+			} else if !cc.IsInvoke() && len(cc.Args) > 0 && cc.Args[0] == val && cc.Signature().Recv() != nil {
+				if sc := cc.StaticCallee(); sc == nil || !nilSafeMethod(sc) {
+					deref = true
+				}
+			}
+		}
+		if !deref {
+			continue
+		}
+		ub := r.Block()
+		protected := false
+		for _, t := range tests {
+			if (t.nilS == ub || t.nilS.Dominates(ub)) && len(t.nilS.Preds) == 1 {
+				protected = true
+			}
+			if t.iff.Block().Dominates(ub) && t.iff.Block() != ub && !blockReaches(t.erS, ub, nil) {
+				protected = true
+			}
+		}
+		if !protected {
+			return r
+		}
+	}
+	return nil
 }
